@@ -72,7 +72,7 @@ def prune_work(keep_hash):
     if not os.path.isdir(base):
         return
     entries = sorted((os.path.getmtime(os.path.join(base, d)), d) for d in os.listdir(base))
-    for _, d in entries[:-6]:
+    for _, d in entries[:-12]:
         if d != keep_hash:
             subprocess.run(['rm', '-rf', os.path.join(base, d)])
 
